@@ -206,7 +206,10 @@ def one_model(ctx, prog, script, rng):
         feas = list(range(L, n - D))
         if feas:
             t = rng.choice(feas)
-            rejections = [('min_iter>max_iter', dict(min_iter=3, max_iter=2), ValueError),
+            inspan = [k for k in (-1, 1, 2, -2) if 0 <= t + k < n]
+            rejections = [('min_iter>max_iter', dict(min_iter=3, max_iter=2), ValueError)] + \
+                         [('min_iter>max_iter with in-span offset', dict(min_iter=1, max_iter=0, offset=k), ValueError) for k in inspan[:2]] + [
+                          
                           ('offset-before-span', dict(offset=-(t + 1)), IndexError),
                           ('offset-beyond-span', dict(offset=n - t), IndexError)]
             for label, kw, exc in rejections:
